@@ -842,7 +842,35 @@ class C02(Prop):
         for i in range(n):
             kind = ["mixed", "mixed", "burst", "wide"][i % 4]
             out.append(self.gen_script(rng, "c02_%d" % i, kind))
+        # event responses of SEVERAL fragments cut while a later fragment is in flight (seeded change C02_a was caught
+        # by chance only): smallest solicited buffer, a burst larger than one fragment, then a cut at an octet offset
+        # that falls behind the first fragment of the next poll's response
+        for i in range(8 if tier == "quick" else 80):
+            out.append(self.gen_evfrag(rng, "c02_f_%d" % i))
         return out
+
+    def gen_evfrag(self, rng, sid):
+        cfg = {"unsol": 0, "discard": rng.below(2), "poll": rng.choice([30, 50]), "cto": 300, "evscan": rng.below(2),
+               "chunk": rng.choice([64, 292, 1000, 4096]), "osol": 249, "ounsol": 249, "orx": 2048, "mtx": 2048,
+               "workers": rng.choice([2, 4]), "ev": ",".join(["60"] * 8)}
+        points = [("bi", 0, "1"), ("ai", 1, "2"), ("ctr", 2, "3")]
+        ops = [["add", ty, idx, cls] for ty, idx, cls in points]
+        values = {(ty, idx): DEFAULTS[ty] for ty, idx, cls in points}
+        serial = 0
+        ops.append(["wait", 40])
+        for rnd in range(rng.range(2, 3)):
+            ops.append(["begin"])
+            for k in range(rng.range(36, 50)):
+                serial += 1
+                ty, idx, cls = points[k % 2]
+                v = self.gen_value(rng, ty, serial, values[(ty, idx)])
+                values[(ty, idx)] = v
+                ops.append(["update", ty, idx, v, 1, "s%d" % (1000000000 + 10 * serial)])
+            ops.append(["commit"])
+            ops.append(["cutat", "o2m", rng.choice([300, 330, 360, 400, 450, 520, 600])])
+            ops.append(["wait", rng.choice([60, 120, 200])])
+        ops.append(["quiesce"])
+        return Case(sid, script_text(sid, "pair", cfg, ops), {"kind": "evfrag-unsol0", "nops": len(ops)})
 
     # ---- oracle ------------------------------------------------------------------------------------
 
